@@ -130,6 +130,17 @@ static inline const char *vc_asan_check(void) {
     return NULL;
 }
 
+/* ---------------- uninitialised-stack oracle ---------------- */
+/* Before every case the stack below the harness frame is filled with 0xA5, so that an automatic variable the
+ * library reads before writing it holds a wild pattern instead of whatever an earlier call left there (often a
+ * harmless NULL): a pointer of that kind faults, a counter of that kind breaks the functional oracle. */
+static size_t vc_dirty_bytes = 32768;
+static void __attribute__((noinline)) vc_dirty_stack(void) {
+    if (!vc_dirty_bytes) return;
+    volatile unsigned char *p = __builtin_alloca(vc_dirty_bytes);
+    memset((void *)p, 0xA5, vc_dirty_bytes);
+    __asm__ volatile("" : : "r"(p) : "memory");
+}
 /* ---------------- case bookkeeping ---------------- */
 static inline int vc_skipped(const char *key) {
     if (!vc_sh->nskip) return 0;
@@ -147,6 +158,7 @@ static inline int vc_case(const char *label, const char *key) {
     if (vc_skipped(vc_sh->key)) return 0;
     vc_asan_mark = vc_sh->asan_count;
     vc_sh->in_case = 1;
+    vc_dirty_stack();
     return 1;
 }
 static inline void vc_label(const char *label) { snprintf(vc_sh->label, sizeof vc_sh->label, "%s", label); }
@@ -179,6 +191,12 @@ static void vc_wd_start(void) {
     struct itimerval it = {{1, 0}, {1, 0}}; setitimer(ITIMER_VIRTUAL, &it, NULL);
 }
 
+#ifdef VC_COVERAGE
+void __gcov_dump(void);
+#define VC_GCOV_DUMP() __gcov_dump()
+#else
+#define VC_GCOV_DUMP() ((void)0)
+#endif
 /* ---------------- supervisor ---------------- */
 static void vc_flush_stats(void) {
     for (int i = 0; i < vc_nstats; i++) printf("STAT\t%s\t%ld\n", vc_stats[i].name, vc_stats[i].v);
@@ -216,6 +234,7 @@ static int vc_main(int argc, char **argv, int (*worker)(int, char **)) {
             vc_flush_stats();
             printf("DONE\t%d\n", vc_exhaustive && rc == 0);
             fflush(stdout);
+            VC_GCOV_DUMP();     /* coverage builds only (tools/coverage.py) */
             _exit(0);
         }
         int st; while (waitpid(pid, &st, 0) < 0 && errno == EINTR) {}
